@@ -45,6 +45,10 @@ Inductive case :=
 (* bytes marshalled by protobuf-go and the records they hold, in file order; exact = the bytes were produced with
    deterministic (key-sorted) map order from records listed with sorted keys, so Wire.v must re-encode them
    byte for byte *)
+(* a COMPLETE run of recorded operations in a directory that already holds files (leftovers of a crashed earlier
+   snapshot, under the names the real code gave them): final = what the real file system holds under [target]
+   afterwards, written = the bytes the run wrote on the snapshot path *)
+| CSeq (files : list (string * list N)) (target : string) (ops : list fsop) (final : option (list N)) (written : list N)
 | CCodecN (bytes : list N) (recs : list wmesh) (exact : bool)
 | CCodecS (bytes : list N) (recs : list wmeshsil) (exact : bool)
 | CMutN (bytes : list N) (l : list (mut * lres wmesh))
@@ -69,9 +73,17 @@ Fixpoint bytes_eqb (a b : list N) : bool :=
   | x :: r, y :: t => (x =? y)%N && bytes_eqb r t
   | _, _ => false
   end.
+(* a quiescent file system holding the given files *)
+Definition fs_of_files (l : list (string * list N)) : fs :=
+  mkFs (map (fun p => mkFile (snd p) [] 0) l)
+       (fold_left (fun d ip => <[fst (snd ip) := fst ip]> d) (imap (fun i p => (i, p)) l) ∅) [] [].
+Definition opt_bytes_eqb (a b : option (list N)) : bool :=
+  match a, b with Some x, Some y => bytes_eqb x y | None, None => true | _, _ => false end.
+
 Definition fsop_eqb (a b : fsop) : bool :=
   match a, b with
   | Create x, Create y => String.eqb x y
+  | OpenExisting x, OpenExisting y => String.eqb x y
   | Write x d, Write y e => String.eqb x y && bytes_eqb d e
   | Fsync x, Fsync y => String.eqb x y
   | Close x, Close y => String.eqb x y
@@ -214,6 +226,7 @@ Definition check_case (c : case) : bool :=
       let cls := model_class store old new in
       forallb (fun p => let m := model_image target old ops p in
                         img_ok old new m (p_img p) && beq (cls m) (p_load p)) pts
+  | CSeq files target ops final _ => opt_bytes_eqb (content (run ops (fs_of_files files)) target) final
   | CCodecN bytes recs exact => codec_ok decode_nflog encode_nflog mesh_equiv bytes recs exact
   | CCodecS bytes recs exact => codec_ok decode_silences encode_silences meshsil_equiv bytes recs exact
   | CMutN bytes l => forallb (mut_ok nflog_load decode_nflog mesh_equiv bytes) l
@@ -225,6 +238,8 @@ Definition prop_case (c : case) : bool :=
   | COps _ _ _ _ => true
   | CCrash _ target old new ops pts =>
       forallb (fun p => is_old_or_new old new (model_image target old ops p)) pts
+  | CSeq files target ops _ written =>  (* the model's target holds exactly the bytes written on the snapshot path *)
+      opt_bytes_eqb (content (run ops (fs_of_files files)) target) (Some written)
   | CCodecN bytes _ _ =>  (* round trip on what was decoded *)
       match decode_nflog bytes with
       | Ok l => match decode_nflog (encode_nflog l) with Ok l' => beq l' l | _ => false end
@@ -239,6 +254,7 @@ Definition prop_case (c : case) : bool :=
 
 Inductive shown :=
 | SOps (l : list fsop) | SImgs (l : list (option nat * ldclass))
+| SSeq (o : option (list N))
 | SDecN (r : res (list wmesh)) | SDecS (r : res (list wmeshsil))
 | SMutN (l : list (res (list (string * wmesh)))) | SMutS (l : list (res (list (string * wmeshsil)))).
 Definition show_case (c : case) : shown :=
@@ -248,6 +264,7 @@ Definition show_case (c : case) : shown :=
       let cls := model_class store old new in
       SImgs (map (fun p => let m := model_image target old ops p in
                            (match m with Some b => Some (length b) | None => None end, cls m)) pts)
+  | CSeq files target ops _ _ => SSeq (content (run ops (fs_of_files files)) target)
   | CCodecN bytes _ _ => SDecN (decode_nflog bytes)
   | CCodecS bytes _ _ => SDecS (decode_silences bytes)
   | CMutN bytes l => SMutN (map (fun mo => nflog_load (apply_mut bytes (fst mo))) l)
